@@ -175,7 +175,18 @@ InitMods(ob) ==      \* the obstacle is advanced / its primary data are assigned
             \cup (IF PredGap(ob) > 0 THEN {[k |-> "set_initial_state", id |-> 1, state |-> adv]} ELSE {})
             \cup {[k |-> "set_prediction", id |-> 1, pred |-> pr] :
                      pr \in {[k |-> "none"], PTraj(2, AltTraj(kind, ob.t0, 1)), AltSet(ob.t0)}}
-HistCases == UNION {{<<<<ob, Red(2)>>, mm>> : mm \in Moves(ob) \cup TrajMods(ob) \cup InitMods(ob)} : ob \in HTrajTargets}
+(* shared data: the second obstacle (id 2, never modified) is built from the same state list / Shape / occupancy *)
+(* list object as the first one, which alone is moved via its obstacle / prediction / trajectory                *)
+ShMv(via, v, sh) == [k |-> "move", via |-> via, id |-> 1, tx |-> v.tx, ty |-> v.ty, q |-> v.q, share |-> sh]
+SharedCases ==
+    LET second(sh, pr) == Ob(2, "dynamic", "truck", 0, sh, St("initial", 0, 3, 0, 0), pr)
+        fset == Ob(1, "dynamic", "car", 0, ShRect42, St("initial", 0, 1, 2, 1), PSet(0, OccsOf(1, 0, 0, 2, <<1, 2>>, 1, M2)))
+    IN {<<<<HTraj(ShRect31, 0, 0, kind), second(ShTri, HTraj(ShRect31, 0, 0, kind).pred)>>, ShMv(via, v, "states")>> :
+           kind \in {"oriented", "pm"}, via \in {"obstacle", "prediction", "trajectory"}, v \in Mvs}
+       \cup {<<<<HTraj(ShTri, 0, 0, "oriented"), second(ShTri, PTraj(0, TrajOf("oriented", 0, 0, 3, <<3, 0>>, 0, M1)))>>, ShMv(via, v, "shape")>> :
+                via \in {"obstacle", "prediction", "trajectory"}, v \in Mvs}
+       \cup {<<<<fset, second(ShRect31, fset.pred)>>, ShMv(via, v, "occs")>> : via \in {"obstacle", "prediction"}, v \in Mvs}
+HistCases == SharedCases \cup UNION {{<<<<ob, Red(2)>>, mm>> : mm \in Moves(ob) \cup TrajMods(ob) \cup InitMods(ob)} : ob \in HTrajTargets}
              \cup UNION {{<<<<ob, Red(2)>>, mm>> : mm \in Moves(ob) \cup OtherMods(ob) \cup InitMods(ob)} : ob \in HSetTargets \cup HOthers}
 
 (* ---- model -------------------------------------------------------------------------------------------- *)
@@ -279,9 +290,22 @@ LawModify ==
            IN /\ Cardinality(Sources(b, t)) <= 1 /\ ((Sources(b, t) # {}) <=> InHorizon(b, t))
               /\ (Source(b, t).k \in {"Initial", "Traj"} => SrcState(b, t) = StateAt(b, t) /\ StateAt(b, t).t = t)   \* same source
               /\ (b.role = "dynamic" /\ StateAt(b, t).k = "state" => StateAt(b, t).t = t)
-              /\ (~Targets(a, md) => b = a)                                                   \* bystanders are untouched
+              /\ ("share" \notin DOMAIN md /\ ~Targets(a, md) => b = a)                       \* bystanders with their own data are untouched
+              /\ ("share" \in DOMAIN md =>      \* shared objects: the second obstacle may or may not have moved with the first one;
+                     /\ Len(S) = 2 /\ md.id = S[1].id                       \* either way its answers are consistent with its CURRENT data
+                     /\ (md.share = "states" => S[1].pred.states = S[2].pred.states)
+                     /\ (md.share = "shape" => S[1].shape = S[2].shape)
+                     /\ (md.share = "occs" => S[1].pred.occs = S[2].pred.occs)
+                     /\ \A c \in {S[2], Modify(S[2], [md EXCEPT !.id = S[2].id, !.via = "prediction"])} :
+                           LET src == Source(c, t)
+                           IN /\ Cardinality(Sources(c, t)) <= 1
+                              /\ (src.k \in {"Initial", "Traj"} =>
+                                     /\ SrcState(c, t) = StateAt(c, t) /\ StateAt(c, t).t = t
+                                     /\ Occ(c, t) = Placed(IF src.k = "Traj" THEN PredShape(c) ELSE c.shape, PoseOf(StateAt(c, t))))
+                              /\ (src.k = "SetOcc" => Occ(c, t) = StoredRegion(c.pred.occs[src.i]))
+                              /\ Modify(c, [k |-> "observed", id |-> c.id, init |-> c.init, shape |-> c.shape, pred |-> c.pred]) = c)
               /\ (md.k = "move" /\ Targets(a, md) =>                                          \* Occ(Move(o, m), t) = Move(Occ(o, t), m)
-                     IF md.via = "prediction" /\ a.role = "dynamic" /\ t = a.t0 THEN Occ(b, t) = Occ(a, t)
+                     IF md.via \in {"prediction", "trajectory"} /\ a.role = "dynamic" /\ t = a.t0 THEN Occ(b, t) = Occ(a, t)
                      ELSE Occ(b, t) = MoveRegion(md, Occ(a, t)))
               /\ (md.k \in {"update_initial_state", "set_initial_state"} /\ Targets(a, md) =>  \* the NEW initial state is the one placed
                      /\ b.t0 = md.state.t /\ Source(b, b.t0).k = "Initial" /\ StateAt(b, b.t0) = md.state
